@@ -38,6 +38,10 @@ LEVEL_TEXT.update({
     "C07": "Bounded model checking of the real persist-and-reload chain over the file model: for every 16-bit expiry, unit and aof-timing flag, Count/Rcount, depth 1..2 and five outage lengths, exactly the persisted still-live hold comes back with the same LockId/Count/Rcount/depth and a deadline within one unit plus a second; never-persist holds do not come back, expired ones do not either.",
 })
 
+LEVEL_TEXT.update({
+    "C16": "Bounded model checking / fault enumeration inside the executor: the real compaction runs over a file model and every directory image after each of its mutations is recovered by a fresh instance; recovered holds must equal those of the pre-compaction image. One recorded finding (inputs removed before the rename).",
+})
+
 LEVEL_NOTE = {
     "C01": "Trusted: the symgo executor (validated per run by native replay of sampled path witnesses), z3. Schedules: single-threaded critical sections only (no interleaving of two requests inside LockDB.Lock is explored); time values drawn from classes {0,3}/{0,4}; millisecond flags and aof-timing flags fixed in these harnesses.",
     "C02": "Trusted: symgo (validated by native replay of sampled witnesses), z3. Single-threaded critical sections; holder list shapes <=3 (inline queue only); show/update flags excluded here (C06).",
@@ -47,6 +51,7 @@ LEVEL_NOTE = {
     "C05": "Millisecond-flag timeouts (wall-clock wheel and its goroutines) and waits longer than 12 s in the simulation are outside; larger T are covered only by the symbolic deadline formula plus the long-table sweep exercised at T > 8. One shard, one key.",
     "C06": "Millisecond-flag expiries, updates that shorten a wheel entry (the 10 s clause) and follower deferral (C10) are outside. One shard, one key.",
     "C07": "One key and one hold per run; value payloads, updates, several databases, file rotation (C16) and the AofChannel goroutine / 200 ms timer are outside; millisecond flag excluded. Arithmetic obligations that z3 cannot decide in 3 s go to cvc5 --solve-bv-as-int=sum.",
+    "C16": "Crash images exist only in the executor's file model (C16_crash has no native replay; C16_renamefail is the native twin of its finding). One small history; appends concurrent with the compaction and the admin/start-up triggers are outside; contents of holds limited to key/LockId/depth.",
     "C08": "File model: full reads and whole-buffer writes; records without attached values (the value file is empty); real disks, fsync and page-cache reordering are outside. LoadAofFiles is driven directly (not Aof.LoadAndInit).",
     "C10": "Kernel only: Server.checkProtocol/handle choosing the forwarding wrapper, the TCP connection to the leader, the relay of frames by Transparency*ServerProtocol and the text-protocol relay are outside this check (no sockets in the executor).",
     "C13": "Trusted: symgo, z3. Frames <= 8 bytes; paths that would allocate more than 300 distinct sizes are cut (listed as unsupported in the evidence); text handlers, CALL and the 64-byte header parser are covered by separate harnesses where registered.",
